@@ -214,6 +214,37 @@ class World:
         self.mgrs[mid] = m
         return m
 
+    def EQ(self, probes: bool = False):
+        """A manager whose __eq__ / __hash__ are observable: an observer has no business comparing the target's objects."""
+        w = self
+        mid = self.next_id
+        self.next_id += 1
+
+        class EMgr:
+            def __enter__(s):
+                w.log.append(("enter_start", mid))
+                w.log.append(("entered", mid))
+                return [s, 1, 2]
+
+            def __exit__(s, et, ev, tb):
+                w.log.append(("exit_start", mid))
+                if probes:
+                    w.observer(w, f"in __exit__ of {mid}")
+                w.log.append(("exit_end", mid))
+                return False
+
+            def __eq__(s, other):
+                w.log.append(("eq-called", mid))
+                return s is other
+
+            def __hash__(s):
+                w.log.append(("hash-called", mid))
+                return id(s) >> 4
+
+        m = EMgr()
+        self.mgrs[mid] = m
+        return m
+
     def CM(self, probes: bool = False):
         """A generator-based manager (contextlib.contextmanager)."""
         import contextlib
@@ -449,7 +480,7 @@ class Gen:
                 t = rng.choice(TARGETS)
                 ctor = ("W.AM(%s)" if is_async else "W.M(%s)") % ("True" if self.probes else "")
                 if self.odd and rng.random() < 0.35:
-                    ctor = (rng.choice(["W.ACM(%s)"]) if is_async else rng.choice(["W.SM(%s)", "W.CM(%s)", "W.ES(%s)", "W.DM(%s)"])) % ("True" if self.probes else "")
+                    ctor = (rng.choice(["W.ACM(%s)"]) if is_async else rng.choice(["W.SM(%s)", "W.CM(%s)", "W.ES(%s)", "W.DM(%s)", "W.EQ(%s)", "W.EQ(%s)"])) % ("True" if self.probes else "")
                 items.append(f"W.T({t!r}, {ctor})" + (f" as {t}" if t else ""))
             head = ind + ("async with " if is_async else "with ") + ", ".join(items) + ":"
             body = self.block(depth - 1, ind + "    ")
